@@ -12,14 +12,15 @@ from vt.runner import Violation, fingerprint
 
 LEVEL = "fault_enumeration"
 RULE = ("Hypothesis draws a configuration: API in {marginal_ln_likelihood, rejection_sample, iterative_rejection_sample} x "
-        "prior-sample source in {JokerSamples object (cache file), user file, in-memory} x options (n_batches, logprobs, "
+        "prior-sample source in {JokerSamples object (cache file), user file (double or single precision), in-memory, a number of "
+        "samples to generate} x options (n_batches, logprobs, "
         "shuffle, n_linear) x pool in {serial, MultiPool(2)}. A dry run counts the invocations N_p of every instrumented "
-        "internal call p (JokerSamples.write before/after, tables.open_file, h5py.File, read_batch, batch_tasks, "
+        "internal call p (JokerSamples.write before/after, write_table_hdf5 before/after, tables.open_file, h5py.File, read_batch, batch_tasks, "
         "JokerSamples.unpack, the helper's two batch methods, pool.map before/after, rng.uniform, rng.choice) and the task "
         "start indices; then EVERY k in 1..N_p of every point - and, for worker-side faults, every task start index - is "
         "injected once (complete enumeration for the configuration; fault types OSError / ValueError / private Exception / "
         "private BaseException in rotation). Oracle per injection: the call raises the injected exception (or one chained "
-        "from it) instead of returning; the private TMPDIR holds no HDF5 file afterwards; the SHA-256 of the user's file "
+        "from it) instead of returning; the private TMPDIR holds no HDF5 file (by extension or magic bytes) and the sampler's own tempfile_path no file at all afterwards; the SHA-256 of the user's file "
         "is unchanged; the same TheJoker then reproduces the baseline likelihoods bit-for-bit and returns a valid "
         "rejection sample. Non-trivial: k>1, or a worker-side fault, or a fault after the cache file was written.")
 SHARDS = {"quick": 4, "thorough": 16}
@@ -33,7 +34,9 @@ def configs(draw):
     if spec["prior"]["K"]["kind"] != "fcm":
         spec["prior"]["K"] = {"kind": "fcm", "sigma_K0": 30.0, "sigma_K0_unit": "km/s", "P0": 365.25, "P0_unit": "d", "max_K": None}
     return {"spec": spec, "api": draw(st.sampled_from(["mll", "rej", "rej", "iter"])),
-            "source": draw(st.sampled_from(["object", "object", "file", "mem"])),
+            "source": draw(st.sampled_from(["object", "object", "file", "file", "mem", "int"])),
+            # the user's library in single precision (prior.sample(dtype=float32)), stored as such
+            "lib_f4": draw(st.integers(0, 3)) == 0,
             "n_batches": draw(st.integers(1, 4)), "logprobs": draw(st.booleans()), "randomize": draw(st.booleans()),
             "n_linear": draw(st.sampled_from([1, 2])), "multipool": draw(st.sampled_from([False, False, False, True])),
             # iterative sampler: small first batches and large requests force several grow-and-retest iterations
@@ -50,10 +53,16 @@ def body_factory(ctx):
     import thejoker as tj
 
     tmp = os.path.join(ctx.workdir, "tmpdir")
+    tmp2 = os.path.join(ctx.workdir, "joker_tempfile_path")
     os.makedirs(tmp, exist_ok=True)
+    os.makedirs(tmp2, exist_ok=True)
 
     def body(cfg):
         spec = cfg["spec"]
+        if cfg.get("lib_f4"):
+            spec = dict(spec, row_dtype="f4")
+        if cfg["source"] == "int" and cfg["api"] != "rej":
+            cfg = dict(cfg, api="rej")      # only rejection_sample takes a number of prior samples to generate
         data = gens.build_data(spec)
         prior = gens.build_prior(spec["prior"])
         lib = gens.build_samples(spec)
@@ -65,18 +74,18 @@ def body_factory(ctx):
         P_lib = set(np.asarray(lib["P"].value).tolist())
         old_tmp = tempfile.tempdir
         tempfile.tempdir = tmp
-        for f in faults.hdf5_files(tmp):
+        for f in faults.hdf5_files(tmp) + faults.all_files(tmp2):
             os.unlink(f)
 
         def make_joker(pool):
             rng = faults.FaultyGenerator(np.random.PCG64(cfg["seed"]))
-            j = tj.TheJoker(prior, rng=rng, pool=pool)
+            j = tj.TheJoker(prior, rng=rng, pool=pool, tempfile_path=tmp2)
             real = j._make_joker_helper
             j._make_joker_helper = lambda d: faults.HelperProxy(real(d))
             return j
 
         def call(j):
-            src = {"object": lib, "file": userfile, "mem": lib}[cfg["source"]]
+            src = {"object": lib, "file": userfile, "mem": lib, "int": 24}[cfg["source"]]
             mem = cfg["source"] == "mem"
             if cfg["api"] == "mll":
                 return j.marginal_ln_likelihood(data, src, n_batches=cfg["n_batches"], in_memory=mem)
@@ -89,11 +98,12 @@ def body_factory(ctx):
                                                 randomize_prior_order=cfg["randomize"], n_linear_samples=cfg["n_linear"], in_memory=mem)
 
         def post_checks(j, what):
-            left = faults.hdf5_files(tmp)
+            left = faults.hdf5_files(tmp) + faults.all_files(tmp2)
             if left:
                 for f in left:
                     os.unlink(f)
-                raise Violation("%s: a temporary HDF5 cache file was left behind" % what, files=[os.path.basename(f) for f in left])
+                raise Violation("%s: a temporary file was left behind (system temp directory or the sampler's tempfile_path)" % what,
+                                files=[os.path.basename(f) for f in left])
             if sha(userfile) != user_hash:
                 raise Violation("%s: the user's prior-samples file was modified" % what)
 
